@@ -102,8 +102,17 @@ def check_tree(case):
         return {"v": [(f"C01|tree-build-or-encode-raises|depth={depth}", {"case": case, "error": repr(exc)})], "nt": True}
     if got != want:
         out.append((f"C01|tree-encode-mismatch|depth={depth}", {"case": case, "got": got[:64], "want": want[:64]}))
-    for vname, mk in (("anyvalue", lambda: ce.anyvalue()()), ("array", lambda: V.Array(ce.anyvalue()))):
-        if vname == "array" and node[0] != "L":
+    def used(mk):
+        # the same target on its second use: it already decoded another, non-empty list
+        def make():
+            o = mk()
+            o.decode(e5.enc(("L", [("U1", [9]), ("A", b"zz"), ("L", [("U2", [300])])])))
+            return o
+        return make
+
+    for vname, mk in (("anyvalue", lambda: ce.anyvalue()()), ("array", lambda: V.Array(ce.anyvalue())),
+                      ("anyvalue/reused", used(lambda: ce.anyvalue()())), ("array/reused", used(lambda: V.Array(ce.anyvalue())))):
+        if vname.startswith("array") and node[0] != "L":
             continue
         try:
             o2 = mk()
@@ -230,6 +239,18 @@ def check_record(case):
             out.append((f"C01|record-decode-value|{name}", {"case": case, "got": repr(flat)[:300]}))
     except Exception as exc:  # noqa: BLE001
         out.append((f"C01|record-decode-raises|{name}", {"case": case, "error": repr(exc)}))
+    if name == "nested":
+        # the same record object decodes a second message: nothing of the first one (two reports of two / three variables) may stay
+        prior = ("L", [("U4", [7]), ("L", [("L", [("U1", [200 + i]), ("L", [("U2", [j + 1000]) for j in range(2 + i)])]) for i in range(2)])])
+        try:
+            o3 = V.List(fmt)
+            o3.decode(e5.enc(prior))
+            pos = o3.decode(want)
+            flat = _flatten(o3.get())
+            if pos != len(want) or o3.encode() != want or not ce.tree_equal(node, flat):
+                out.append((f"C01|record-second-decode-differs|{name}", {"case": case, "got": repr(flat)[:300], "reencoded": o3.encode()[:80], "want": want[:80]}))
+        except Exception as exc:  # noqa: BLE001
+            out.append((f"C01|record-second-decode-raises|{name}", {"case": case, "error": repr(exc)}))
     return {"v": out, "nt": True}
 
 
